@@ -498,5 +498,5 @@ pub fn replay_normalize(objs: &Objects, stream: &[Value]) -> Value {
             break;
         }
     }
-    json!({"outs": outs, "panic": panicked})
+    json!({"outs": outs, "panic": panicked.unwrap_or_default()})
 }
